@@ -231,13 +231,13 @@ func mIntRulesFor(d string) []mRule {
 // VerifC04_NestedLists: `or` with rule sets and names, `enum` lists, large
 // integer rule values.
 func VerifC04_NestedLists() {
-	zzverif.Expect("checked", "checked-0", "checked-1", "checked-2", "checked-3", "checked-4", "checked-5", "checked-6", "checked-7", "checked-8")
+	zzverif.Expect("checked", "checked-0", "checked-1", "checked-2", "checked-3", "checked-4", "checked-5", "checked-6", "checked-7", "checked-8", "checked-9")
 	a := string([]byte{zzverif.OneOf("a", "01234")})
 	// concretised (forked), not symbolic: a symbolic digit inside a 19-20 digit
 	// value puts a chain of 64-bit multiplications (ParseUint) into every query
 	a9 := string([]byte{byte('0' + zzverif.IntRange("a9", 0, 9))})
 	var n mNode
-	family := zzverif.IntRange("family", 0, 8)
+	family := zzverif.IntRange("family", 0, 9)
 	switch family {
 	case 0:
 		n = mNode{kind: schema.TokenTypeNumber, valText: "5", valWant: "5"}
@@ -257,6 +257,14 @@ func VerifC04_NestedLists() {
 		big := []string{"18446744073709551615", "9999999999999999999", "1000000000000000000" + a9, "12345678901234567" + a9 + "0", "1844674407370955161" + a9, "1844674407370955162" + a9}[zzverif.IntRange("big", 0, 5)]
 		n = mNode{kind: schema.TokenTypeString, valText: `"abc"`, valWant: "abc"}
 		n.rules = []mRule{{"maxLength", big, mNum(schema.TokenTypeNumber, big)}}
+	case 9: // \u escapes with lower- and upper-case hex digits in a key, a value and an enum item are reported decoded
+		hi := zzverif.IntRange("hex", 0, 4)
+		hex := []string{"\\u00ef", "\\u00EF", "\\u00ff", "\\u00aB", "\\u0041"}[hi]
+		dec := []string{"ï", "ï", "ÿ", "«", "A"}[hi]
+		n = mNode{kind: schema.TokenTypeObject}
+		n.children = []mNode{{kind: schema.TokenTypeString, key: "k", valText: `"na` + hex + `ve"`, valWant: "na" + dec + "ve",
+			rules: []mRule{{"enum", `["na` + hex + `ve", "` + hex + `"]`, schema.RuleASTNode{TokenType: schema.TokenTypeArray, Source: schema.RuleASTNodeSourceManual,
+				Items: []schema.RuleASTNode{mNum(schema.TokenTypeString, "na"+dec+"ve"), mNum(schema.TokenTypeString, dec)}}}}}}
 	case 8: // a rule set inside `or` whose FIRST rule is an enum list: the written order is kept
 		n = mNode{kind: schema.TokenTypeNumber, valText: "2", valWant: "2"}
 		list := schema.RuleASTNode{TokenType: schema.TokenTypeArray, Source: schema.RuleASTNodeSourceManual,
